@@ -29,9 +29,7 @@ NOT_DECIDED = ["(L/V) the placeholder's shape for each result kind (numpy broadc
 def sentinel_rule(ctx, rid):
     rr = ctx.rule(rid, "`None` cannot mean both 'no default' and 'the placeholder': sentinel identity", floor=3)
     prog = ctx.prog
-    init = prog.need_func(CROP + ".Reaper.__init__")
-    ld = init.nested.get("_load")
-    need(ld is not None, "anchor lost: Reaper _load")
+    ld, _wl, init = shared.reaper_loaders(ctx)
     ctx.touch(init), ctx.touch(ld)
     # the parameter receiving the placeholder
     reaper_calls = []
@@ -63,7 +61,7 @@ def sentinel_rule(ctx, rid):
     # the test in _load
     tests = []
     for n in walk_shallow(ld.node):
-        if isinstance(n, ast.Compare) and len(n.ops) == 1 and isinstance(n.ops[0], (ast.Is, ast.IsNot, ast.Eq, ast.NotEq)) and norm(n.left) == pname:
+        if isinstance(n, ast.Compare) and len(n.ops) == 1 and isinstance(n.ops[0], (ast.Is, ast.IsNot, ast.Eq, ast.NotEq)) and norm(n.left).split(".")[-1].lstrip("_") == pname.lstrip("_"):
             tests.append(n)
     need(len(tests) == 1, "idiom changed: the Reaper's use-default test on %s (found %d)" % (pname, len(tests)))
     t = tests[0]
@@ -127,6 +125,6 @@ def run(ctx):
     prog = ctx.prog
     init = prog.need_func(CROP + ".Reaper.__init__")
     crop = prog.need_cls(CROP + ".Crop")
-    sl = [init] + list(init.nested.values()) + [crop.methods[n] for n in ("reap_combos", "reap_combos_to_ds", "all_nan_result") if n in crop.methods]
+    sl = [init] + list(init.nested.values()) + list(prog.need_cls(CROP + ".Reaper").methods.values()) + [crop.methods[n] for n in ("reap_combos", "reap_combos_to_ds", "all_nan_result") if n in crop.methods]
     sl += [prog.need_func(CROP + ".calc_clean_up_default_res"), prog.need_func(CROP + ".check_ready_to_reap"), prog.need_func("xyzpy.gen.combo_runner.nan_like_result")]
     base_rules.run_link_rules(ctx, "C09", sl)
